@@ -191,6 +191,7 @@ def run(ctx) -> list[Inst]:
         insts.append(Inst(RULE, fname, 'EVERY: element loops with model sinks', 'unproven',
                           msg='no element loop with a model sink recognised in the loader or its helpers',
                           file=group[0].module.relpath, line=group[0].node.lineno, props=props))
+    insts += _every_special(ctx)
     # attach_attackers transfers the model's attackers and their entry points into the graph: same two rules
     if prog.has_func('AttackGraph.attach_attackers'):
         insts += _order_and_break(ctx, prog.func('AttackGraph.attach_attackers'), 'AttackGraph.attach_attackers',
@@ -222,6 +223,63 @@ def _roots(n):
     if isinstance(a, (ast.FunctionDef, ast.ClassDef)):
         return []
     return [a]
+
+
+def _every_special(ctx) -> list[Inst]:
+    """EVERY for the two transfer loops inside the attack-graph layer:
+       * attach_attackers: every model attacker gets its graph attacker (the loop over model.attackers reaches
+         add_attacker on every iteration that does not raise) - "one graph attacker per model attacker";
+       * _generate_graph, linking phase: every target node the evaluator returns becomes a child (the innermost loop
+         around `.children.append(...)` reaches it on every iteration that does not raise) - no edge is filtered out
+         after evaluation."""
+    prog = ctx.prog
+    insts = []
+    specs = [('AttackGraph.attach_attackers', 'add_attacker', ('C11', 'C09'),
+              'one graph attacker per model attacker',
+              "a model attacker for which this path is taken gets no graph attacker at all"),
+             ('AttackGraph._generate_graph', 'children.append', ('C01', 'C09'),
+              'every evaluated target becomes a child',
+              "an edge the step expression yields is dropped after evaluation (e.g. a step reaching itself)")]
+    for fname, sink, props, what, why in specs:
+        if not prog.has_func(fname):
+            continue
+        f = prog.func(fname)
+        cfg = ctx.cfg(f)
+        rel = f.module.relpath
+        sink_nodes = []
+        for n in cfg.nodes:
+            for r in _roots(n):
+                for c in ast.walk(r):
+                    if isinstance(c, ast.Call) and isinstance(c.func, ast.Attribute):
+                        if sink == 'add_attacker' and c.func.attr == 'add_attacker':
+                            sink_nodes.append(n)
+                        if sink == 'children.append' and c.func.attr == 'append' and isinstance(c.func.value, ast.Attribute) \
+                                and c.func.value.attr == 'children':
+                            sink_nodes.append(n)
+        construct = f'EVERY: {fname.split(".")[-1]}: {what}'
+        if not sink_nodes:
+            insts.append(Inst(RULE, fname, construct, 'unproven', msg=f'no {sink} call found (moved into a helper?)',
+                              file=rel, line=f.node.lineno, props=props))
+            continue
+        for sn in sink_nodes:
+            # the loop whose iterations must each reach the sink: outermost loop for add_attacker, innermost for links
+            h = sn.loop
+            if h is None:
+                continue
+            if sink == 'add_attacker':
+                while h.loop is not None:
+                    h = h.loop
+            bad = _path_avoiding(cfg, h, {x.idx for x in sink_nodes})
+            if bad is None:
+                insts.append(Inst(RULE, fname, construct, 'ok', file=rel, line=h.lineno, props=props))
+            else:
+                insts.append(Inst(
+                    RULE, fname, construct, 'violation',
+                    msg=(f"an iteration of 'for {stmt_text(h.ast.target)} in {stmt_text(h.ast.iter, 50)}' can come back to "
+                         f"the loop header through line {bad.lineno} ('{stmt_text(bad.ast, 50)}') without {sink}: {why}"),
+                    file=rel, line=bad.lineno, props=props))
+            break
+    return insts
 
 
 def _order_and_break(ctx, f, fname, props) -> list[Inst]:
